@@ -25,7 +25,7 @@ func init() {
 			"a receiver with a different mapping (other kind / accuracy / offset); mapping omitted and none supplied; each decoded by DecodeDDSketch, DecodeDDSketchWithExactSummaryStatistics and DecodeAndMergeWith into rotating store kinds, fresh and non-empty receivers. Oracle (block boundaries from the independent parser): cut strictly inside a block -> error, no panic; " +
 			"cut at a boundary -> success iff a mapping is available, with exactly the content of the complete blocks; undefined flag / mismatch / missing mapping -> error, no panic. Non-trivial = encoding with >=2 store blocks or >=3 block types; distinct = hash of E.",
 		Cases:     core.Scale(40000, 400000),
-		Mandatory: []string{"fault.cut_inside_block", "fault.cut_at_boundary", "fault.flag_substitution", "fault.mapping_mismatch", "fault.missing_mapping", "cut.after_flag", "cut.between_primitives", "cut.in_varint", "cut.in_varfloat", "cut.in_float64", "decoder.exact", "decoder.plain", "receiver.nonempty", "oracle.boundary_content_checks", "source.arbitrary_weights", "cut.in_9_byte_varfloat"},
+		Mandatory: []string{"fault.cut_inside_block", "fault.cut_at_boundary", "fault.flag_substitution", "fault.mapping_mismatch", "fault.missing_mapping", "cut.after_flag", "cut.between_primitives", "cut.in_varint", "cut.in_varfloat", "cut.in_float64", "decoder.exact", "decoder.plain", "receiver.nonempty", "oracle.boundary_content_checks", "source.arbitrary_weights", "cut.in_9_byte_varfloat", "cut.window_on_longer_buffer"},
 		Assumptions: []string{
 			"block boundaries are those found by the independent parser on the complete encoding",
 			"a failed decode is not required to leave the receiver unchanged",
@@ -183,6 +183,11 @@ func runC08(c *core.Ctx) {
 		}
 		var err error
 		prefix := append([]byte{}, e[:cut]...)
+		if (cut+c.Index)%2 == 0 {
+			// the truncated input as a window on a longer buffer: the bytes that were cut off follow it in memory
+			prefix = append([]byte{}, e...)[:cut]
+			c.Count("cut.window_on_longer_buffer", 1)
+		}
 		if c.Guard("DecodeAndMergeWith(truncated)", func() { err = recv.I().DecodeAndMergeWith(prefix) }) {
 			c.Logf("panic while decoding E[:%d] into %s", cut, target)
 			return
